@@ -1,10 +1,26 @@
 #!/bin/sh
-# Builds /repo's working tree WITHOUT the verification guard in a scratch directory and runs the
-# repository's own test suite (the 195 tests of the baseline).  The scratch build is removed afterwards.
-set -e
+# Builds /repo's working tree WITHOUT the verification guard in a scratch directory and runs the repository's own
+# test suite.  In this sandbox 7 single-DES cases fail on the pinned tree as well (OpenSSL 3 without the legacy
+# provider); they are not part of the 195-case baseline.  The script exits 0 iff no case of BASELINE.json's
+# stable_pass list fails.  The scratch build is removed afterwards.
 B=$(mktemp -d /var/tmp/verif-baseline-XXXXXX)
 trap 'rm -rf "$B"' EXIT
 cmake -G Ninja -S /repo -B "$B" -DBUILD_TESTS=ON -DCMAKE_BUILD_TYPE=RelWithDebInfo -DCMAKE_CXX_FLAGS=-Wno-error \
-      -DENABLE_ECC=ON -DENABLE_EDDSA=ON -DWITH_CRYPTO_BACKEND=openssl >/dev/null
-cmake --build "$B" -j16 >/dev/null
-ctest --test-dir "$B" -j8 --timeout 900 --output-junit "$B/junit.xml"
+      -DENABLE_ECC=ON -DENABLE_EDDSA=ON -DWITH_CRYPTO_BACKEND=openssl >/dev/null || exit 2
+cmake --build "$B" -j16 >/dev/null || exit 2
+ctest --test-dir "$B" -j8 --timeout 900 --output-on-failure > "$B/ctest.log" 2>&1
+python3 - "$B/ctest.log" <<'PY'
+import json, re, sys
+log = open(sys.argv[1], errors="replace").read()
+fails = set(m.group(1) for m in re.finditer(r"^\s*\d+\) test: (\S+) \((?:F|E)\)", log, re.M))
+stable = set()
+for n in json.load(open("/root/.vp/BASELINE.json"))["stable_pass"]:
+    stable.add("::".join(n.split("::")[1:]).split(" with parameter")[0])
+bad = sorted(f for f in fails if f in stable)
+runs = [int(x) for x in re.findall(r"Run:\s+(\d+)", log)] + [int(x) for x in re.findall(r"^OK \((\d+)", log, re.M)]
+print("cppunit cases failing: %d (%s)" % (len(fails), ", ".join(sorted(fails))))
+print("cases run: %d; baseline (stable_pass) cases failing: %d %s" % (sum(runs), len(bad), bad))
+m = re.search(r"\d+% tests passed.*", log)
+print(m.group(0) if m else "no ctest summary")
+sys.exit(1 if bad or not runs else 0)
+PY
